@@ -43,7 +43,7 @@ PROPS["C01"] = _hist(
     lambda f: f["pages"] >= 8 and 0 < f["crawled"] < f["pages"],
     ["C01_pages_compared", "reports_checked"],
     ["LRUTrie.add_page", "LRUTrie.add_lru", "LRUTrie.pages_iter", "LRUTrie.count_pages", "LRUTrie.count_crawled_pages"],
-    Q(640), T(2400),
+    Q(640), T(2400, exhaustive_shapes=5, soak=3000),
 )
 
 PROPS["C02"] = _hist(
@@ -58,7 +58,7 @@ PROPS["C02"] = _hist(
     lambda f: f["nodes"] >= 10,
     ["C02_lookups", "C02_absent_probes", "decodes"],
     ["LRUTrie.lru_node", "LRUTrie.windup_lru", "LRUTrie.dfs_iter", "LRUTrieNode.read", "detailed_chunks_iter"],
-    Q(480), T(2400),
+    Q(480, exhaustive_shapes=4), T(2400, exhaustive_shapes=6),
 )
 
 PROPS["C03"] = _hist(
@@ -73,7 +73,7 @@ PROPS["C03"] = _hist(
     lambda f: f["pairs"] >= 6 and f["multi"] >= 1 and f["self"] >= 1,
     ["C03_page_link_answers", "C03_degree_answers", "C03_link_pairs_compared"],
     ["LinkStore.add_links", "Traph.add_links", "Traph.index_batch_crawl_iter", "Traph.get_page_links", "Traph.links_iter"],
-    Q(420), T(2000),
+    Q(420), T(2000, soak=6000),
 )
 
 PROPS["C04"] = _hist(
@@ -172,7 +172,7 @@ PROPS["C19"] = _hist(
     lambda f: f["long"] >= 1 and f["links"] >= 1,
     ["C19_per_op_sizes", "C19_accountings", "C19_metrics"],
     ["LRUTrieNode.write", "detailed_chunks_iter", "LRUTrie.metrics", "LinkStore.count_links"],
-    Q(640), T(2400),
+    Q(640), T(2400, soak=20000),
 )
 
 PROPS["C20"] = _hist(
